@@ -310,6 +310,26 @@ def run_case(spec, ctx):
         classes += sorted(specs.features(E) & {"dep", "par-cw", "tri-cw", "par-slanted", "poly", "mesh", "sphere", "circle", "interval", "tri", "par"})
         summary["volume"] = None if vals is None else np.round(vals, 5).tolist()
         nontrivial = kind != "leaf" or not _unit_like(E, k)
+        if kind == "product" and vals is not None and hasattr(D, "domain_a"):
+            # history on shared objects: the product was asked once; now the first factor gets a user volume
+            # ("a user-set volume overrides it", "multiplicative for products") and the SAME product is asked again
+            uv = 0.5 + (spec["rng"] % 97) / 10.0
+            params = build.params_points(spec["prows"])
+            with ctx.lib("set_volume on a factor", feature=feat):
+                D.domain_a.set_volume(uv)
+            rb = _vol(ctx, D.domain_b, params, "volume(b)", feat)
+            r2 = _vol(ctx, D, params, "volume after factor.set_volume", feat)
+            if rb is not None and r2 is not None:
+                want = uv * rb[0]
+                got = r2[0]
+                if len(got) == 1 and len(want) > 1:
+                    got = np.repeat(got, len(want))
+                if len(want) == 1 and len(got) > 1:
+                    want = np.repeat(want, len(got))
+                if len(got) != len(want) or not _close(got, want).all():
+                    ctx.violation("set-volume-ignored", "product|factor-set-after-first-use",
+                                  f"product volume {np.round(got, 5).tolist()} after factor a got the user volume {uv}: "
+                                  f"{uv} * volume(b) = {np.round(want, 5).tolist()}")
     elif kind in ("union-disjoint", "cut-contained"):
         _flagged(spec, ctx, summary)
     elif kind == "partial":
